@@ -34,6 +34,12 @@ include c
 theorem dropHolders {st : St} (h : P st) (xs : List Holder) : P (st.dropHolders xs) :=
   foldl_inv P St.dropHolder (fun a x ha => c.dropHolder a x ha) xs st h
 
+theorem releaseHolder {st : St} (h : P st) (x : Holder) : P (st.releaseHolder x) :=
+  c.clientFree _ _ (c.dropHolder _ _ h)
+
+theorem releaseHolders {st : St} (h : P st) (xs : List Holder) : P (st.releaseHolders xs) :=
+  foldl_inv P St.releaseHolder (fun a x ha => c.releaseHolder ha x) xs st h
+
 theorem flushDelayed {st : St} (h : P st) (sid : Nat) : P (st.flushDelayed sid) := by
   unfold St.flushDelayed
   split
@@ -66,7 +72,7 @@ theorem retransmit {st : St} (h : P st) (x : Holder) : P (st.retransmit x) := by
           by_cases e : y = x
           · subst e; simp [hk, HKind.isAlloc]
           · simp [e]
-      · apply c.dropHolder
+      · apply c.releaseHolder
         apply c.flushDelayed
         refine c.benign _ _ _ h ?_
         intro s; exact ⟨rfl, rfl, rfl⟩
@@ -104,7 +110,7 @@ theorem fireAsync {st : St} (h : P st) (now : Nat) (x : Holder) : P (st.fireAsyn
   unfold St.fireAsync
   split
   · split
-    · apply c.dropHolder
+    · apply c.releaseHolder
       refine c.benign _ _ _ (c.misc st _ st.timeout st.maxIdle st.resAlive st.dirty h) ?_
       intro s; dsimp only; split <;> exact ⟨rfl, rfl, rfl⟩
     · exact h
@@ -266,7 +272,8 @@ theorem Closed.step {P : St → Prop} (c : Closed P) {st : St} (h : P st) (e : E
               · refine c.benign _ _ _ h ?_
                 intro t; exact ⟨rfl, rfl, rfl⟩
               · exact live_updSess s.sid _ (fun _ => rfl) ⟨s, hm, rfl⟩
-        · exact c.prepareIo (c.serve (c.getSession h p (Or.inr (rxSkip_false_eps hs))) _ r (getSession_live st p))
+        · exact c.prepareIo (c.clientFree _ _
+            (c.serve (c.getSession h p (Or.inr (rxSkip_false_eps hs))) _ r (getSession_live st p)))
     | rst p =>
       dsimp only
       split
@@ -276,6 +283,7 @@ theorem Closed.step {P : St → Prop} (c : Closed P) {st : St} (h : P st) (e : E
         · exact h
         · dsimp only
           apply c.prepareIo
+          apply c.clientFree
           apply c.dropHolder
           apply c.flushDelayed
           refine c.benign _ _ _ (c.getSession h p (Or.inl (by simp [hs]))) ?_
@@ -289,6 +297,7 @@ theorem Closed.step {P : St → Prop} (c : Closed P) {st : St} (h : P st) (e : E
         · exact h
         · dsimp only
           apply c.prepareIo
+          apply c.clientFree
           apply c.dropHolder
           apply c.flushDelayed
           refine c.benign _ _ _ (c.getSession h p (Or.inl (by simp [hs]))) ?_
@@ -331,7 +340,7 @@ theorem Closed.step {P : St → Prop} (c : Closed P) {st : St} (h : P st) (e : E
       · exact h
       · split
         · exact h
-        · exact c.dropHolder _ _ h
+        · exact c.releaseHolder h _
     | appRef p =>
       dsimp only
       split
@@ -346,12 +355,14 @@ theorem Closed.step {P : St → Prop} (c : Closed P) {st : St} (h : P st) (e : E
       · exact h
       · split
         · exact h
-        · exact c.dropHolder _ _ h
+        · exact c.releaseHolder h _
     | disconnect p =>
       dsimp only
       split
       · exact h
-      · exact c.disconnectSess h _
+      · split
+        · exact h
+        · exact c.disconnectSess h _
     | callHome p =>
       dsimp only
       split
@@ -371,9 +382,7 @@ theorem Closed.step {P : St → Prop} (c : Closed P) {st : St} (h : P st) (e : E
       · exact h
       · split
         · exact h
-        · split
-          · exact h
-          · exact c.clientFree _ _ (c.dropHolder _ _ h)
+        · exact c.clientFree _ _ (c.dropHolder _ _ h)
     | connect p =>
       dsimp only
       split
@@ -426,10 +435,10 @@ theorem Closed.step {P : St → Prop} (c : Closed P) {st : St} (h : P st) (e : E
       split
       · dsimp only
         have h1 : P ((st.holders.filter fun h => isObs k h.kind).foldl
-            (fun acc h => (acc.updSess h.sid fun t => { t with last := st.now, notes := t.notes + 1 }).dropHolder h) st) := by
+            (fun acc h => (acc.updSess h.sid fun t => { t with last := st.now, notes := t.notes + 1 }).releaseHolder h) st) := by
           apply foldl_inv P
           · intro a x ha
-            apply c.dropHolder
+            apply c.releaseHolder
             refine c.benign _ _ _ ha ?_
             intro s; exact ⟨rfl, rfl, rfl⟩
           · exact h
@@ -450,6 +459,7 @@ theorem Closed.step {P : St → Prop} (c : Closed P) {st : St} (h : P st) (e : E
         split
         · dsimp only
           apply c.prepareIo
+          apply c.clientFree
           apply c.rstNote
           exact c.getSession h p (Or.inl (by simp [hs]))
         · exact h
@@ -459,7 +469,7 @@ theorem Closed.step {P : St → Prop} (c : Closed P) {st : St} (h : P st) (e : E
       · exact h
       · rename_i s hs
         split
-        · exact c.prepareIo (c.getSession h p (Or.inl (by simp [hs])))
+        · exact c.prepareIo (c.clientFree _ _ (c.getSession h p (Or.inl (by simp [hs]))))
         · exact h
     | advance d => exact c.misc st (st.now + d) st.timeout st.maxIdle st.resAlive st.dirty h
     | io => exact c.prepareIo h
@@ -470,7 +480,7 @@ theorem Closed.step {P : St → Prop} (c : Closed P) {st : St} (h : P st) (e : E
       dsimp only
       apply c.teardownEnd
       exact foldl_inv P _ (fun a ep ha => c.freeEndpoint ha ep) _ _
-        (c.dropHolders (c.dropHolders (c.dropHolders h _) _) _)
+        (c.releaseHolders (c.releaseHolders (c.releaseHolders h _) _) _)
 
 theorem Closed.run {P : St → Prop} (c : Closed P) {st : St} (h : P st) (es : List Event) : P (st.run es) :=
   foldl_inv P _ (fun _ e ha => c.step ha e) es st h
